@@ -56,6 +56,12 @@ STMT_GARBAGE.extend(['@import "x.css" { foo: bar }', '@import {}', '@namespace p
                      '@namespace {} ', '@variables;', '@page;', '@media;', '@font-face;', '@font-face x;'])
 
 
+# malformed known at-rules are ignored wherever they stand (also between the @import / @namespace rules), escaped brackets are names
+MALFORMED_AT = ['@page $ {}', '@media ;', '@media $ {a{}}', '@font-face $ {}', '@variables $ {}', '@namespace ;', '@media screen and (color: rgb(1,2)) { a { top: 0 } }']
+STMT_GARBAGE.extend(MALFORMED_AT + ['\\28 $ {top:0}', '\\5b $ {top:0}', '\\7b $ {top:0}'])
+DECL_GARBAGE.extend(['\\7b ', '\\5b $', '\\28  x', '\\7b : '])
+
+
 MAY_LEAVE_DECLARATION = {'color: red;;;', 'color:', 'color: red ! x', 'top: 1px 2 !', 'color: a:b', 'color: =', 'color: #', 'x: f(;)', '$a: b', 'u+0-7f: x',
                          '12: 3', 'co lor: red', 'color red', 'foo(bar): baz'}
 
@@ -63,6 +69,7 @@ MAY_LEAVE_DECLARATION = {'color: red;;;', 'color:', 'color: red ! x', 'top: 1px 
 # rules with an invalid selector and nothing else: ignored as a whole
 HEADER_SAFE = {'$ {}', '$ {top:0}', '1 {}', 'a,,b {top:0}', '1a {top:0}', 'a:::b {top:0}', ' {top:0}', 'a[[b]] {top:0}', '& {top:0}',
                'a > {top:0}', 'a, {top:0}', ', a {top:0}', 'a.{top:0}', '#{top:0}', 'a::{top:0}'}
+HEADER_SAFE |= set(MALFORMED_AT) | {'\\28 $ {top:0}', '\\5b $ {top:0}', '\\7b $ {top:0}'}
 
 
 def parse(text):
@@ -385,3 +392,8 @@ def check_escbrace(case, ctx):
 
 
 SUBS.append(Sub('escbrace', check_escbrace, enumerate=escbrace_cases, shards_quick=1, shards_thorough=1))
+
+
+from vlib.reported import reported_sub  # noqa: E402
+
+SUBS.append(reported_sub('C04'))
